@@ -304,7 +304,102 @@ def mjd_work(P, item):
         P.inconclusive_(f"mjd_after_nsamps: {e}")
 
 
+# ---------------------------------------------------------------- E: headers of containers derived from containers
+def methods_work(P, item):
+    """TimeSeries.downsample / pad and FilterbankBlock.get_tim / dedisperse / pad_samples (real bytecode, recorder header,
+    the real Header.dedispersed_header): tsamp scaled by the factor, nsamples = length of the data handed over, dm = the
+    DM that was applied (the block's own, not the file's reference DM)."""
+    import numpy as np
+    from ..core import rebind, wrap
+    from sigpyproc import block, header, timeseries
+    obls = []
+
+    class Hdr:
+        def __init__(self, **kw):
+            self.__dict__.update(kw)
+
+        def new_header(self, upd=None):
+            h = Hdr(**{k: v for k, v in self.__dict__.items() if k != "updates"})
+            h.updates = dict(upd or {})
+            for k, v in (upd or {}).items():
+                setattr(h, k, v)
+            return h
+        dedispersed_header = header.Header.dedispersed_header
+
+        def __getattr__(self, name):
+            # any other header quantity: the real Header's property / method on this stand-in's fields
+            if name.startswith("__"):
+                raise AttributeError(name)
+            a = header.Header.__dict__.get(name)
+            if isinstance(a, property):
+                return a.fget(self)
+            if callable(a):
+                import types as _t
+                return _t.MethodType(a, self)
+            raise AttributeError(name)
+
+    class TS:
+        def __init__(self, data, hdr, *a):
+            self.data, self.header = data, hdr
+
+    class FB:
+        def __init__(self, data, hdr, dm=0):
+            self.data, self.header, self.dm = data, hdr, dm
+    tsamp, dmf, dmb = SReal(z3.Real("tsamp")), SReal(z3.Real("dm_file")), SReal(z3.Real("dm_block"))
+
+    class StatsStub:
+        @staticmethod
+        def downsample_1d(data, factor, method="mean"):
+            return np.zeros(len(data) // factor)
+
+    class KStub:
+        @staticmethod
+        def roll_block(data, shifts):
+            return np.zeros(data.shape)
+
+        @staticmethod
+        def roll_block_valid(data, shifts):
+            return np.zeros((data.shape[0], data.shape[1] - 2))
+    s = z3.Solver()
+    s.add(tsamp.e > 0)
+
+    def decide(name, cond, kind):
+        P.stats.queries += 1
+        r = s.check(cond)
+        if r == z3.unsat:
+            P.obligation(f"container methods/{name}", "holds", symbolic=True)
+        else:
+            params = dict(kind="methods", which=kind)
+            src = ("import sys, json\nfrom symx.concrete import c08\n"
+                   f"sys.exit(c08.main(json.loads({json.dumps(json.dumps(params))})))\n")
+            P.violation(f"methods-{kind}-{name[:40]}".replace(" ", "_").replace("=", "").replace("*", "x").replace("/", "-"), f"container methods: {name}", src, model=params)
+    for n, factor in ((7, 2), (9, 3), (8, 4), (5, 5)):
+        me = TS(np.zeros(n), Hdr(tsamp=tsamp, nsamples=n, dm=dmf, nchans=1))
+        out = rebind(timeseries.TimeSeries.downsample, stats=StatsStub, TimeSeries=TS)(me, factor)
+        up = out.header.updates
+        decide(f"TimeSeries.downsample[n={n},factor={factor}]: tsamp = tsamp*factor", z3.BoolVal(True) if "tsamp" not in up else wrap(up["tsamp"]).e != tsamp.e * factor, "ts_downsample")
+        decide(f"TimeSeries.downsample[n={n},factor={factor}]: nsamples = n//factor = data length", z3.BoolVal(up.get("nsamples") != n // factor or len(out.data) != n // factor), "ts_downsample")
+    me = TS(np.zeros(6), Hdr(tsamp=tsamp, nsamples=6, dm=dmf, nchans=1))
+    out = rebind(timeseries.TimeSeries.pad, TimeSeries=TS)(me, 3)
+    decide("TimeSeries.pad[6+3]: nsamples = data length", z3.BoolVal(out.header.updates.get("nsamples") != 9 or len(out.data) != 9), "ts_pad")
+    blk = FB(np.zeros((3, 8)), Hdr(tsamp=tsamp, nsamples=8, dm=dmf, nchans=3, get_dmdelays=lambda dm, ref_freq="ch1": np.zeros(3, dtype=int)), dmb)
+    t = rebind(block.FilterbankBlock.get_tim, TimeSeries=TS)(blk)
+    up = t.header.updates
+    decide("FilterbankBlock.get_tim: dm = the block's DM", z3.BoolVal(True) if "dm" not in up else wrap(up["dm"]).e != dmb.e, "get_tim")
+    decide("FilterbankBlock.get_tim: nchans = 1 and one value per time sample", z3.BoolVal(up.get("nchans") != 1 or len(t.data) != 8), "get_tim")
+    for valid, cols in ((False, 8), (True, 6)):
+        dmx = SReal(z3.Real("dm_applied"))
+        d = rebind(block.FilterbankBlock.__dict__["dedisperse"], kernels=KStub, FilterbankBlock=FB)(blk, dmx, only_valid_samples=valid)
+        decide(f"FilterbankBlock.dedisperse[valid={valid}]: block records the applied DM", wrap(d.dm).e != dmx.e, "blk_dedisperse")
+        decide(f"FilterbankBlock.dedisperse[valid={valid}]: nsamples = data length", z3.BoolVal(d.header.updates.get("nsamples") != cols or d.data.shape[1] != cols), "blk_dedisperse")
+        t2 = rebind(block.FilterbankBlock.get_tim, TimeSeries=TS)(d)
+        decide(f"dedisperse[valid={valid}] then get_tim: the time series records the applied DM", z3.BoolVal(True) if "dm" not in t2.header.updates else wrap(t2.header.updates["dm"]).e != dmx.e, "get_tim")
+    P.reached += 1
+
+
 def work(P, item):
+    if item[0] == "methods":
+        return methods_work(P, item)
     if item[0] == "mjd":
         return mjd_work(P, item)
     if item[0] == "container":
@@ -340,6 +435,9 @@ def run(R):
     for f0, fo in (chans[:1] if quick else chans):
         items.insert(0, ("readblock", f0, fo, 4096))
     items.append(("mjd",))
+    items.append(("methods",))
+    from sigpyproc import block as _block, timeseries as _ts
+    R.encode(_ts.TimeSeries.downsample, _ts.TimeSeries.pad, _block.FilterbankBlock.get_tim, _block.FilterbankBlock.__dict__["dedisperse"], header.Header.dedispersed_header)
     R.encode(header.Header.mjd_after_nsamps, header.Header.obs_time.fget)
     parts = R.pmap(work, items)
     R.vacuity_witness("c08", sum(p.reached for p in parts) > 0)
